@@ -697,22 +697,26 @@ func (ss *mergeHandlerSession) handleSendCountMsg(msg *mergeHandlerSessionSendMs
 
 type mergeHandlerSessionOKState struct {
 	size int
-	// map[eventID][chIdx]msg
-	s map[string][]*ServerOKMsg
+	// map[eventID][chIdx]msgs: the replies of each handler in arrival order.
+	// The same event id may be in flight more than once.
+	s map[string][][]*ServerOKMsg
+	// map[eventID]number of requests that are not replied yet
+	pending map[string]int
 }
 
 func newMergeHandlerSessionOKState(size int) *mergeHandlerSessionOKState {
 	return &mergeHandlerSessionOKState{
-		size: size,
-		s:    make(map[string][]*ServerOKMsg),
+		size:    size,
+		s:       make(map[string][][]*ServerOKMsg),
+		pending: make(map[string]int),
 	}
 }
 
 func (stat *mergeHandlerSessionOKState) TrySetEventID(eventID string) {
-	if len(stat.s[eventID]) > 0 {
-		return
+	if stat.pending[eventID] == 0 {
+		stat.s[eventID] = make([][]*ServerOKMsg, stat.size)
 	}
-	stat.s[eventID] = make([]*ServerOKMsg, stat.size)
+	stat.pending[eventID]++
 }
 
 func (stat *mergeHandlerSessionOKState) SetMsg(chIdx int, msg *ServerOKMsg) {
@@ -720,7 +724,7 @@ func (stat *mergeHandlerSessionOKState) SetMsg(chIdx int, msg *ServerOKMsg) {
 	if len(msgs) == 0 {
 		return
 	}
-	msgs[chIdx] = msg
+	msgs[chIdx] = append(msgs[chIdx], msg)
 }
 
 func (stat *mergeHandlerSessionOKState) Ready(eventID string) bool {
@@ -728,7 +732,7 @@ func (stat *mergeHandlerSessionOKState) Ready(eventID string) bool {
 	if len(msgs) == 0 {
 		return false
 	}
-	return !slices.Contains(msgs, nil)
+	return !slices.ContainsFunc(msgs, func(q []*ServerOKMsg) bool { return len(q) == 0 })
 }
 
 func (stat *mergeHandlerSessionOKState) Msg(eventID string) *ServerOKMsg {
@@ -738,7 +742,8 @@ func (stat *mergeHandlerSessionOKState) Msg(eventID string) *ServerOKMsg {
 	}
 
 	var oks, ngs []*ServerOKMsg
-	for _, msg := range msgs {
+	for _, q := range msgs {
+		msg := q[0]
 		if msg.Accepted {
 			oks = append(oks, msg)
 		} else {
@@ -762,6 +767,15 @@ func joinServerOKMsgs(msgs ...*ServerOKMsg) *ServerOKMsg {
 }
 
 func (stat *mergeHandlerSessionOKState) ClearEventID(eventID string) {
+	stat.pending[eventID]--
+	if stat.pending[eventID] > 0 {
+		msgs := stat.s[eventID]
+		for i := range msgs {
+			msgs[i] = msgs[i][1:]
+		}
+		return
+	}
+	delete(stat.pending, eventID)
 	delete(stat.s, eventID)
 }
 
@@ -867,19 +881,26 @@ func (stat *mergeHandlerSessionReqState) ClearSubID(subID string) {
 
 type mergeHandlerSessionCountState struct {
 	size int
-	// map[subID][chIDx]msg
-	counts map[string][]*ServerCountMsg
+	// map[subID][chIDx]msgs: the replies of each handler in arrival order.
+	// The same subscription id may be in flight more than once.
+	counts map[string][][]*ServerCountMsg
+	// map[subID]number of requests that are not replied yet
+	pending map[string]int
 }
 
 func newMergeHandlerSessionCountState(size int) *mergeHandlerSessionCountState {
 	return &mergeHandlerSessionCountState{
-		size:   size,
-		counts: make(map[string][]*ServerCountMsg),
+		size:    size,
+		counts:  make(map[string][][]*ServerCountMsg),
+		pending: make(map[string]int),
 	}
 }
 
 func (stat *mergeHandlerSessionCountState) SetSubID(subID string) {
-	stat.counts[subID] = make([]*ServerCountMsg, stat.size)
+	if stat.pending[subID] == 0 {
+		stat.counts[subID] = make([][]*ServerCountMsg, stat.size)
+	}
+	stat.pending[subID]++
 }
 
 func (stat *mergeHandlerSessionCountState) SetCountMsg(chIdx int, msg *ServerCountMsg) {
@@ -887,7 +908,7 @@ func (stat *mergeHandlerSessionCountState) SetCountMsg(chIdx int, msg *ServerCou
 	if len(counts) == 0 {
 		return
 	}
-	counts[chIdx] = msg
+	counts[chIdx] = append(counts[chIdx], msg)
 }
 
 func (stat *mergeHandlerSessionCountState) Ready(subID string, chIdx int) bool {
@@ -895,17 +916,30 @@ func (stat *mergeHandlerSessionCountState) Ready(subID string, chIdx int) bool {
 	if len(counts) == 0 {
 		return false
 	}
-	return !slices.Contains(counts, nil)
+	return !slices.ContainsFunc(counts, func(q []*ServerCountMsg) bool { return len(q) == 0 })
 }
 
 func (stat *mergeHandlerSessionCountState) Msg(subID string) *ServerCountMsg {
+	heads := make([]*ServerCountMsg, 0, stat.size)
+	for _, q := range stat.counts[subID] {
+		heads = append(heads, q[0])
+	}
 	return slices.MaxFunc(
-		stat.counts[subID],
+		heads,
 		func(a, b *ServerCountMsg) int { return cmp.Compare(a.Count, b.Count) },
 	)
 }
 
 func (stat *mergeHandlerSessionCountState) ClearSubID(subID string) {
+	stat.pending[subID]--
+	if stat.pending[subID] > 0 {
+		counts := stat.counts[subID]
+		for i := range counts {
+			counts[i] = counts[i][1:]
+		}
+		return
+	}
+	delete(stat.pending, subID)
 	delete(stat.counts, subID)
 }
 
